@@ -6,6 +6,7 @@ import (
 	"bytes"
 	"fmt"
 	"os"
+	"path/filepath"
 	"runtime/debug"
 	"strings"
 
@@ -34,6 +35,13 @@ func realFS(name string) (fs.FileSystem, string, func()) {
 			f = fs.OSMMap
 		}
 		return f, tmp + "/", func() { os.RemoveAll(tmp) }
+	case "submmap", "submem":
+		// a FileSystem the application wrapped (here: rooted in a directory) instead of a built-in value
+		tmp, _ := os.MkdirTemp("", "vfs")
+		if name == "submem" {
+			return fs.Sub(fs.Mem, "sub-"+filepath.Base(tmp)), "", func() { os.RemoveAll(tmp) }
+		}
+		return fs.Sub(fs.OSMMap, tmp), "", func() { os.RemoveAll(tmp) }
 	}
 	return simfs.New(), "", func() {}
 }
@@ -44,7 +52,7 @@ func (h *harness) aliasCase(r *rng, name string, nops int) {
 			h.emit("aliasfail case=%s panic: %v", name, strings.ReplaceAll(fmt.Sprint(e), "\n", " "))
 		}
 	}()
-	fsName := []string{"mem", "os", "mmap", "mmap", "sim"}[r.intn(5)]
+	fsName := []string{"mem", "os", "mmap", "mmap", "sim", "submmap", "submem"}[r.intn(7)]
 	fsys, prefix, cleanup := realFS(fsName)
 	defer cleanup()
 	dir := prefix + "alias-" + name
